@@ -235,6 +235,10 @@ def watchdog_cases(chk):
         cases.append(wd(ctx, [("check", False)], fault="load_raises"))
         cases.append(wd(ctx, [("check", True)], fault="setpol_raises"))
         cases.append(wd(ctx, [("check", False)], fault="etag_raises", src="async"))
+        # an error, then checks inside the suppression window (the early return from inside the lock section)
+        cases.append(wd(ctx, [("check", False), ("check", False), ("check", True)], fault="load_raises"))
+        cases.append(wd(ctx, [("check", False), ("check", False), ("stop", True)], [("check", False)], fault="load_raises"))
+        cases.append(wd(ctx, [("start", True, False), ("check", False), ("stop", False)], fault="load_raises", src="async"))
         # start; stop with the polling thread wherever it happens to be / held mid-check / holding the lock
         for st in starts:
             for timed in B:
@@ -771,6 +775,52 @@ def run_watchdog(case, T):
     g = G(copy.deepcopy(POLICY_V))
     hr = HotReloader(g, Src(), initial_load=False, poll_interval=0.05, backoff_min=0.05, backoff_max=0.1)
     hr_box["hr"] = hr
+
+    # lock events as the implementation performs them: (model thread id, acquired?/released, lock id).
+    # Logged while the lock is held (after acquiring, before releasing), so the log order is a possible order
+    # of the acquisitions and releases themselves.
+    events = []
+    cur_call = {"main": 0, "other": 0}
+
+    def model_tid():
+        th = threading.current_thread()
+        tid = getattr(th, "_c14_tid", None)      # kept on the Thread object (idents are reused)
+        if tid is not None:
+            return tid
+        if th is getattr(hr, "_thread", None):
+            tid = 2
+        elif case["ctx"] == "loop" and case.get("xctx", "plain") == "loop" and case.get("other"):
+            tid = -1                 # helper of which caller? not decidable from outside: trace not checked
+        elif case["ctx"] == "loop":
+            tid = 3 + cur_call["main"]
+        else:
+            tid = 3 + len(case["main"]) + cur_call["other"]
+        th._c14_tid = tid
+        return tid
+
+    class TracedLock:
+        def __init__(self, inner, lock_id):
+            self.inner, self.lock_id = inner, lock_id
+
+        def acquire(self, *a, **k):
+            ok = self.inner.acquire(*a, **k)
+            if ok:
+                events.append([model_tid(), True, self.lock_id])
+            return ok
+
+        def release(self):
+            events.append([model_tid(), False, self.lock_id])
+            self.inner.release()
+
+        def __enter__(self):
+            self.acquire()
+            return self
+
+        def __exit__(self, *exc):
+            self.release()
+
+    hr._lock = TracedLock(hr._lock, 0)
+    g._state_lock = TracedLock(g._state_lock, 1)
     req = (Subject(id="u", roles=[], attrs={}), Action("read"), Resource(type="doc", id="1", attrs={}), Context({}))
     progress = []
 
@@ -804,7 +854,9 @@ def run_watchdog(case, T):
 
     def caller(calls, ctx, who):
         def body():
+            threading.current_thread()._c14_tid = 0 if who == "main" else 1
             for ix, c in enumerate(calls):
+                cur_call[who] = ix
                 do(c, who, ix)
         return in_loop(body) if ctx == "loop" else body
 
@@ -830,7 +882,9 @@ def run_watchdog(case, T):
     returned = not any(th.is_alive() for th in ths)
     elapsed = round(time.time() - t0, 3)
     poll = getattr(hr, "_thread", None)
+    evs = events[:400]
     res = {"returned": returned, "elapsed": elapsed, "raised": {k: v for k, v in box.items() if v},
+           "events": evs if all(e[0] >= 0 for e in evs) else None,
            "progress": progress[:], "poller_alive_after": bool(poll and poll.is_alive()),
            "hung": [n for n, th in zip(("main", "other"), ths) if th.is_alive()]}
     # let everything that is still around run out
@@ -1135,6 +1189,13 @@ def check_cases(chk, cases, replay=False):
         cfgs.setdefault(json.dumps(model_config(c), sort_keys=True), model_config(c))
     keys = list(cfgs)
     mvs = dict(zip(keys, model_verdicts([cfgs[k] for k in keys]))) if keys else {}
+    # trace inclusion: the lock events observed on the implementation must be a run of the model
+    tr_idx = [i for i, c in wcases if isinstance(results[i], dict) and results[i].get("events")]
+    tr_out = lib.run_model("conc", [lib.model_call("conc.accepts", model_config(cases[i]), results[i]["events"])
+                                    for i in tr_idx], chunk=2, procs=max(2, (os.cpu_count() or 4) - 2)) if tr_idx else []
+    accepts = {i: lib.dec(o) for i, o in zip(tr_idx, tr_out)}
+    chk.extra["lock_traces_checked"] = len(tr_idx)
+    chk.extra["lock_events_checked"] = sum(len(results[i]["events"]) for i in tr_idx)
     chk.extra["model_configurations_asked"] = len(keys)
     chk.extra["model_states_explored"] = sum(v.get("states", 0) for v in mvs.values() if isinstance(v, dict))
     for i, c in enumerate(cases):
@@ -1148,6 +1209,20 @@ def check_cases(chk, cases, replay=False):
             judge_gather(chk, c, r)
         elif c["kind"] == "watchdog":
             judge_watchdog(chk, c, r, mvs[json.dumps(model_config(c), sort_keys=True)], replay)
+            acc = accepts.get(i)
+            if acc is not None:
+                chk.mark(("trace", json.dumps(strip(c), sort_keys=True)), True)
+                chk.count("lock_trace:" + ("accepted" if isinstance(acc, dict) and acc.get("accepted") else "REJECTED"))
+                if not (isinstance(acc, dict) and acc.get("accepted")):
+                    k = acc.get("first_unmatched") if isinstance(acc, dict) else None
+                    evs = r["events"]
+                    chk.corr_break("the sequence of lock acquisitions/releases observed on the implementation is not a "
+                                   "run of the lock model (event %s: thread %s %s lock %s)"
+                                   % (k, evs[k][0] if k is not None else "?",
+                                      ("acquires" if evs[k][1] else "releases") if k is not None else "?",
+                                      evs[k][2] if k is not None else "?"),
+                                   strip(c), impl={"events": evs[: (k or 0) + 3], "first_unmatched": k},
+                                   model=acc, theorems=THEOREMS)
         elif c["kind"] == "skeleton":
             check_skeletons(chk)
         elif c["kind"] == "witness":
